@@ -4,7 +4,7 @@
 EXTENDS Tracker, Json
 
 \* quick closure: 3 names x 2 channels, one privilege flag
-Q_Names == {"a", "b", "c"}
+Q_Names == {"a", "b", ""}
 Q_Chans == {"#x", "#y"}
 Q_CModeCalls == {[m |-> <<"+", "o">>, a |-> <<n>>] : n \in Q_Names} \cup
                 {[m |-> <<"-", "o">>, a |-> <<n>>] : n \in Q_Names}
